@@ -33,6 +33,11 @@ ASSUMPTIONS = [
 ]
 
 MUTANTS = [
+    ("header cached by file name", "AegeanTools/BANE.py",
+     "def sigmaclip(arr, lo, hi, reps=10):",
+     "@lru_cache(maxsize=32)\ndef get_header(filename):\n"
+     "    return fits.getheader(filename)\n\n\n"
+     "def sigmaclip(arr, lo, hi, reps=10):", "C06-R11"),
     ("blank grid nodes enter the interpolation as zero", "AegeanTools/BANE.py",
      "    ifunc = RegularGridInterpolator((rows, cols), vals)",
      "    ifunc = RegularGridInterpolator((rows, cols), np.nan_to_num(vals))",
@@ -655,6 +660,24 @@ def run(ctx):
                                  what="BANE: step / box sizes, shapes, "
                                  "regions")
     ctx.floor("C06-R10", n10, 3, "internal calls in BANE")
+    from ..core import shared_state
+    ctx.rule("C06-R11", "the maps depend on the file's current content only: "
+             "no function of BANE memoises what it read (lru_cache, "
+             "module-level or default-argument containers) -- a header "
+             "cached by file name in the parent is inherited by the forked "
+             "workers and applied to a rewritten file (stale BSCALE / "
+             "shape).  The `global` names that hand the barrier and the "
+             "memory id to the workers are process plumbing, not data")
+    n11 = 0
+    for q, f11 in sorted(prog.functions.items()):
+        if not f11.module.endswith("BANE") or "CLI" in f11.module:
+            continue
+        n11 += 1
+        st = shared_state(prog, f11, globals_ok=True)
+        ctx.check("C06-R11", f11, "%s keeps no data between calls" %
+                  f11.short, not st, "; ".join(d for _, d in st[:3]),
+                  node=st[0][0] if st else f11.node)
+    ctx.floor("C06-R11", n11, 5, "functions of BANE")
     from .c20 import r5_planes
     r5_planes(ctx, prog, rule="C06-R8")
     # ---------------------------------------------------------------- R7
